@@ -143,6 +143,17 @@ def check_slice(res, facts):
             pe = strip_ptr(canon(writes["ptr"][2]))
             if not (is_call(pe, "add") and canon(pe[2][1]) == canon(begin)):
                 probs.append("ptr is not advanced by `begin`")
+            # every result (also the empty one) is produced only after both range checks
+            from .flow import defs_of
+            lenx = ("field", ("deref", ("param", 1)), "len")
+            for (bi, si, k, pay) in defs_of(b).get(0, []):
+                if b.blocks[bi]["cleanup"]:
+                    continue
+                ctx = Ctx(b, bi, facts)
+                if not ctx.le(begin, end):
+                    probs.append("a result is returned (bb%d) without the check begin <= end" % bi)
+                if not (ctx.le(end, lenx) or any(ctx.le(end, x) for x in walk(end) if is_call(x, "len"))):
+                    probs.append("a result is returned (bb%d) without the check end <= len: an out-of-range (empty) range is accepted silently" % bi)
     if probs:
         res.bad(key, b.loc(), "; ".join(probs))
     else:
